@@ -227,6 +227,14 @@ def judge(ctx, case):
                         ev, em = stat_stddev(cx, cxv, cw, cwv, ig)
                     elif agg == "quantile":
                         ev, em, band = stat_quantile(cx, cxv, cw, cwv, ig, case["p"])
+                        if cw is not None and not em:
+                            vw = cw[cxv & cwv]
+                            if len(vw) and not (numpy.nan_to_num(vw) > 0).any():
+                                # every valid row of the cell weighs nothing: the weighted quantile has no reading
+                                ctx.count("cells:all_weights_zero(not compared)")
+                                continue
+                            if (numpy.nan_to_num(vw) == 0).any():
+                                ctx.count("cells:weighted_quantile_with_a_zero_weight_row")
                     else:
                         ev, em = stat_minmax(cx, cxv, ig, agg)
                     if em and len(rows):
